@@ -908,7 +908,7 @@ class Shape:
                 self.report('space', e, 'membership test of %s in a set of %s' % (ea, eb))
             if isinstance(a0, Arr):
                 out_ = Arr(a0.axes, BoolT())
-                out_.mask = ('isin', ea, eb, e)
+                out_.mask = ('isin', ea, eb, e, b if isinstance(b, Arr) else None)         # 5th item: the member set (its own restrictions restrict the result)
                 if isinstance(b, Arr):
                     out_.member_of = b
                 return out_
